@@ -41,12 +41,23 @@ void _orc_compiler_init(void);
 void (*orc_verif_yield_hook) (int point) = NULL;
 #endif
 
+/* orc_init() may be called from several threads at once: the flag is read
+ * outside the lock, so it needs acquire/release ordering */
+#if defined(__GNUC__) || defined(__clang__)
+#define ORC_INIT_FLAG_LOAD(p) __atomic_load_n ((p), __ATOMIC_ACQUIRE)
+#define ORC_INIT_FLAG_STORE(p, v) __atomic_store_n ((p), (v), __ATOMIC_RELEASE)
+#else
+/* no portable atomics: always take the lock */
+#define ORC_INIT_FLAG_LOAD(p) (FALSE)
+#define ORC_INIT_FLAG_STORE(p, v) (*(p) = (v))
+#endif
+
 void
 orc_init (void)
 {
   static int inited = FALSE;
 
-  if (!inited) {
+  if (!ORC_INIT_FLAG_LOAD (&inited)) {
 #ifdef ORC_VERIF_HOOKS
     if (orc_verif_yield_hook) orc_verif_yield_hook (0);
 #endif
@@ -83,7 +94,7 @@ orc_init (void)
       orc_mips_init();
 #endif
 
-      inited = TRUE;
+      ORC_INIT_FLAG_STORE (&inited, TRUE);
     }
     orc_global_mutex_unlock ();
   }
